@@ -19,7 +19,7 @@ LEVEL_TEXT = ('partial. Lean 4 theorems about the deterministic wrappers around 
               'Distribution moments and "different seeds differ" are sampled assumption checks, not proved.')
 LEVEL_NOTE = ('partial by nature: means/variances and seed sensitivity are properties of NumPy\'s generators (unproven clauses, sampled).')
 TECHNIQUE = 'Lean 4 proof (ordered-field algebra, Int.floor, decide on a regenerated effect table) + differential correspondence on identical draws'
-GEN = ['Effects', 'PowerSpectrum', 'Rule07']
+GEN = ['DetectorIdx', 'Effects', 'Extent', 'FieldDispatch', 'FieldIdx', 'FieldMerge', 'PowerSpectrum', 'Rule07', 'Units']     # every Gen module the model, lemmas, theorems and driver ops import (transitively)
 OPS = ['C18']
 RULE = ('cases: rule07_dark_current (fpn 0 / > 0, explicit seed, repeated), read noise on float/int/uint frames, power_spectrum with float/int/bool masks; shot noise (poisson/gaussian; frames 1..12 x 1..12, non-square, float and integer counts 0..1e6, frames with a negative or '
         'a > 9.22e18 entry), read noise, dark current (fpn 0 and > 0, scalar and array shapes), power_spectrum on elliptical/annular '
@@ -28,8 +28,8 @@ RULE = ('cases: rule07_dark_current (fpn 0 / > 0, explicit seed, repeated), read
 TRUSTED = ['np.random.Generator.poisson/normal/lognormal/standard_normal are pure functions of the generator state and parameters; '
            'normal(loc, scale) = loc + scale * standard_normal() drawn in C order; Poisson draws are non-negative integers and '
            'poisson raises ValueError for lam < 0 or lam > 9.223372006484771e18',
-           'np.fft and the PSD noise filter of power_spectrum are not modelled: only its index bookkeeping (regenerated, Gen/PowerSpectrum.lean) and '
-           'the final mask-and-normalise step are']
+           'np.fft and the PSD noise filter of power_spectrum are not modelled: its index bookkeeping and its final mask-and-normalise lines are '
+           'regenerated (Gen/PowerSpectrum.lean: psMaskStep, psNormalise) and consumed by the model; the Rule-07 rate is regenerated (Gen/Rule07.lean)']
 UNPROVEN = ['shot noise has mean and variance equal to the signal; read noise has zero mean and the requested standard deviation: '
             'distributional facts about NumPy generators, sampled with 6-sigma margins (assumption checks)',
             'different seeds give different draws: sampled',
